@@ -180,6 +180,7 @@ static bool body_linear_hash(const Case &c, Ctx &ctx)
 {
     uint64_t len = c.v[0];
     if (len <= 4) ctx.nt("lh:pass-through(<=4)"); else if (len <= 8) ctx.nt("lh:single-block(5..8)"); else if (len % 8) ctx.nt("lh:partial-last-block"); else ctx.cls("lh:multiple-of-8");
+    if (len > 5000) ctx.cls("lh:long-input-near-a-power-of-two(2^13..2^16)");
     if (len == 0) ctx.cls("lh:empty");
     { static const char *RN[] = {nullptr, "lh:pair-identical-inputs", "lh:pair-differs-in-one-element", "lh:pair-differs-in-last-element", "lh:pair-common-prefix"}; if (lh_rel(c) && len) ctx.cls(RN[lh_rel(c)]); }
     std::vector<uint64_t> x(len), y(len);
@@ -372,7 +373,8 @@ int main(int argc, char **argv)
     { pbt::PropDef p{"c07.huge", [] { return rc::gen::just(std::vector<uint64_t>{(1ull << 24) + 1, 7}); }, body_lh_huge, 0, false, desc_lh, 100};
       p.enum_count = [] { return (uint64_t)(g_level >= 1 ? 4 : 1); }; p.enum_at = [](uint64_t i) { static const uint64_t L[] = {(1ull << 24) + 1, (1ull << 24) + 11, (1ull << 25) + 1, (1ull << 24) + 8}; return std::vector<uint64_t>{L[i % 4], pbt::mix(i, 77)}; }; props.push_back(p); }
     props.push_back({"c07.random", [] { return rc::gen::apply([](uint64_t len, uint64_t seed, std::vector<uint64_t> ex) { std::vector<uint64_t> v{len, seed}; if (ex.size() > len) ex.resize(len); v.insert(v.end(), ex.begin(), ex.end()); return v; },
-                         rc::gen::weightedOneOf<uint64_t>({{4, g::range(0, 40)}, {3, g::range(0, 300)}, {1, g::range(0, 5000)}}), g::uni64(), rc::gen::container<std::vector<uint64_t>>(g::fe())); }, body_linear_hash, 1, false, desc_lh, 40});
+                         rc::gen::weightedOneOf<uint64_t>({{8, g::range(0, 40)}, {6, g::range(0, 300)}, {2, g::range(0, 5000)},
+                                                           {1, rc::gen::apply([](int k, int d) { return (uint64_t)((1ll << k) + d); }, g::irange(9, 16), g::irange(-9, 9))}}), g::uni64(), rc::gen::container<std::vector<uint64_t>>(g::fe())); }, body_linear_hash, 1, false, desc_lh, 40});
     { pbt::PropDef p{"c08.enum", [] { return rc::gen::just(std::vector<uint64_t>{0, 0, 0, 1, 1, 0, 0}); }, body_merkle, 0, true, desc_merkle, 100};
       p.enum_count = [] { return (uint64_t)merkle_space().size(); }; p.enum_at = [](uint64_t i) { return merkle_space()[i]; }; props.push_back(p); }
     props.push_back({"c08.random", [] { return rc::gen::exec([] {
